@@ -53,8 +53,13 @@ def gen_diagram(ints, with_callables=False):
         attrs = []
         names = list(ATTRS)
         n = 1 + t.pick(4)
-        # first attribute: always a supported identifying attribute
-        attrs.append({'name': 'Id' if t.flag() else names.pop(t.pick(len(names))), 'type': t.choice(['unique_id', 'integer', 'string'])})
+        # first attribute: always a supported identifying attribute - now and then typed by a user type with a supported base
+        # (what refers to it is declared with the base type)
+        idty = t.choice(['unique_id', 'integer', 'string'])
+        udts = [n for n in tnames if n.startswith('Udt') and bpmodel.resolve_core(D, n) in ('INTEGER', 'STRING', 'UNIQUE_ID')]
+        if udts and t.pick(3) == 0:
+            idty = t.choice(udts)
+        attrs.append({'name': 'Id' if t.flag() else names.pop(t.pick(len(names))), 'type': idty})
         for _ in range(n):
             nm = names.pop(t.pick(len(names)))
             k = t.pick(8)
